@@ -114,6 +114,39 @@ func init() {
 					c.Failf(fmt.Sprintf("C14:getter-after-overwrite:%s:0x%04x", prof, v), "%s: Set(0x3000) and Get succeeded, then 0x%04x was written behind the same pointer: Get=(0x%04x,%v), want accepted=%v", prof, v, g, gerr, wantValid)
 				}
 			}
+			// 3c the setter on an object that already holds that very value (stored without the setter, as a decoder does),
+			//    and the validator / setter / getter once more afterwards: acceptance does not depend on what is stored
+			for _, prof := range []string{psatoken.Profile1Name, psatoken.Profile2Name} {
+				cl, e := psatoken.NewClaims(prof)
+				if e != nil {
+					continue
+				}
+				vv := v
+				switch x := cl.(type) {
+				case *psatoken.P1Claims:
+					x.SecurityLifeCycle = &vv
+				case *psatoken.P2Claims:
+					x.SecurityLifeCycle = &vv
+				}
+				serr := cl.SetSecurityLifeCycle(v)
+				st.Trans.Add(1)
+				if wantValid != (serr == nil) {
+					c.Failf(fmt.Sprintf("C14:setter-on-object-holding-the-value:%s:0x%04x", prof, v), "%s holds 0x%04x (stored directly); SetSecurityLifeCycle(0x%04x) err=%v, want accepted=%v", prof, v, v, serr, wantValid)
+				}
+				if g, gerr := cl.GetSecurityLifeCycle(); wantValid != (gerr == nil) || (gerr == nil && g != v) {
+					c.Failf(fmt.Sprintf("C14:getter-on-object-holding-the-value:%s:0x%04x", prof, v), "Get=(0x%04x,%v), want accepted=%v", g, gerr, wantValid)
+				}
+				// a different, valid value replaces it; then the value under test is refused / accepted as on a fresh object
+				if cl.SetSecurityLifeCycle(0x2001) == nil {
+					serr = cl.SetSecurityLifeCycle(v)
+					if wantValid != (serr == nil) {
+						c.Failf(fmt.Sprintf("C14:setter-after-other-value:%s:0x%04x", prof, v), "after Set(0x2001): Set(0x%04x) err=%v, want accepted=%v", v, serr, wantValid)
+					}
+					if g, gerr := cl.GetSecurityLifeCycle(); gerr != nil || (wantValid && g != v) || (!wantValid && g != 0x2001) {
+						c.Failf(fmt.Sprintf("C14:getter-after-other-value:%s:0x%04x", prof, v), "Get=(0x%04x,%v)", g, gerr)
+					}
+				}
+			}
 			// 4 the state type itself, for all 65536 state values
 			s := psatoken.LifeCycleState(v)
 			st.Trans.Add(1)
